@@ -358,7 +358,14 @@ EdnsReadWhy(e) ==
 StepWhy(e, strict) ==
   IF e.res = "panic" THEN "panic in " \o e.o.op
   ELSE IF ~Structural(e.pre) THEN "-"
-  ELSE LET s == StateWhy(e.view, e.post, e.reparse) IN
-       IF s # "" THEN "after " \o e.o.op \o ": " \o s
-       ELSE LET w == EffectWhy(e, strict) IN IF w # "" THEN w ELSE EdnsReadWhy(e)
+  ELSE LET s == StateWhy(e.view, e.post, e.reparse)
+           s1 == IF s = "" THEN "" ELSE "after " \o e.o.op \o ": " \o s IN
+       \* bytes that cannot be decoded any more: nothing else can be said
+       IF Len(e.post) < 12 \/ ~Structural(e.post) THEN s1
+       \* otherwise every class of complaint is reported (state: C08; effect: C09 / C10; read-back of EDNS data: C09),
+       \* so that each property's check sees its own
+       ELSE LET w == EffectWhy(e, strict)
+                r == EdnsReadWhy(e)
+                Glue2(a, b) == IF a = "" THEN b ELSE IF b = "" THEN a ELSE a \o " ;; " \o b IN
+            Glue2(Glue2(s1, w), r)
 ====
